@@ -166,11 +166,15 @@ def lastAdd (last : DB) (kvs : List (Bytes × Bytes)) : DB := kvs.foldl (fun d k
 /-- "--.xxx.--" -/
 def sentinel : Bytes := [45, 45, 46, 120, 120, 120, 46, 45, 45]
 
+/-- `cutVersion(key)` as `bytes.Equal` sees it (nil compares like the empty string). -/
+def cutOf (key : Bytes) : Bytes := match cutVersion key with | some c => c | none => []
+
 /-- one step of the loop of `MVCCHelper.Trash` over the reverse iterator: state = (current
-prefix, keys to delete). -/
+prefix, keys to delete).  A record continues the current key iff `cutVersion(key)` EQUALS the
+remembered prefix (repo commit 3f54487; before it the test was `bytes.HasPrefix(key, prefix)`). -/
 def trashStep (cut : Nat) (st : Bytes × List Bytes) (e : Bytes × Bytes) : Bytes × List Bytes :=
   let (pfx, dels) := st
-  if !(pfx.isPrefixOf e.1) then
+  if cutOf e.1 != pfx then
     (match cutVersion e.1 with | some p => p | none => sentinel, dels)
   else
     match getVersion e.1 with
@@ -183,6 +187,19 @@ def trashDels (db : DB) (cut : Nat) : List Bytes :=
 
 def trash (db : DB) (cut : Nat) : DB :=
   db.filter (fun e => !(trashDels db cut).contains e.1)
+
+/-- the loop as it was before commit 3f54487 (`HasPrefix`), kept as a regression witness. -/
+def trashStepOld (cut : Nat) (st : Bytes × List Bytes) (e : Bytes × Bytes) : Bytes × List Bytes :=
+  let (pfx, dels) := st
+  if !(pfx.isPrefixOf e.1) then
+    (match cutVersion e.1 with | some p => p | none => sentinel, dels)
+  else
+    match getVersion e.1 with
+    | none => (pfx, dels)
+    | some v => if v ≤ Int.ofNat cut then (pfx, e.1 :: dels) else (pfx, dels)
+
+def trashOld (db : DB) (cut : Nat) : DB :=
+  db.filter (fun e => !((db.reverse.foldl (trashStepOld cut) (sentinel, [])).2).contains e.1)
 
 /-! ### whole helper: meta records + data -/
 
@@ -339,19 +356,6 @@ def Below (n : Nat) (db : DB) : Prop := ∀ e ∈ db, ∃ k i, i < n ∧ e.1 = g
 /-- the "last" records agree with the data region whose versions are all below `n`: for every key,
 the last record is the value of the key's newest version (none if it has no version). -/
 def LastOK (last db : DB) (n : Nat) : Prop := ∀ k, get last k = specRead db k n
-
-/-- no record is covered by the `cutVersion` prefix of a greater record of a DIFFERENT key: whenever
-the prefix Trash remembers for a greater record `x` is a prefix of the data key of `e`, the two
-records belong to the same key (same `cutVersion`).  Pairwise, decidable, about the store only. -/
-def coverOK (x e : Bytes) : Bool :=
-  match cutVersion x with
-  | some p => !(p.isPrefixOf e) || (cutVersion e == some p)
-  | none => true
-
-def NoForeignCover (db : DB) : Prop :=
-  ∀ x ∈ db, ∀ e ∈ db, blt e.1 x.1 = true → coverOK x.1 e.1 = true
-
-instance (db : DB) : Decidable (NoForeignCover db) := by unfold NoForeignCover; infer_instance
 
 instance {β : Type} (db : Store β) : Decidable (Sorted db) := by unfold Sorted; infer_instance
 instance (db : DB) : Decidable (NoEmpty db) := by unfold NoEmpty; infer_instance
